@@ -36,7 +36,7 @@ func (p passIcpt) WrapStreamingHandler(next connect.StreamingHandlerFunc) connec
 // C19 — WithRecover.
 func C19(r *h.Run) {
 	r.Model("c19case", "c19_ok")
-	r.Sum.Rule = "panic values {nil, error, string, struct, http.ErrAbortHandler, none} x 4 RPC kinds x 3 protocols x panic point {before first receive, between sends, after last send} x position of the recover interceptor among 0..2 other interceptors; observed: calls and arguments of the recovery function, the error the client sees, propagation of the abort sentinel out of ServeHTTP. distinct = distinct tuple"
+	r.Sum.Rule = "panic values {nil, error, string, struct, http.ErrAbortHandler, an error wrapping it, an error whose Is matches it, none} x 4 RPC kinds x 3 protocols x panic point {before first receive, between sends, after last send} x position of the recover interceptor among 0..2 other interceptors; observed: calls and arguments of the recovery function, the error the client sees, propagation of the abort sentinel out of ServeHTTP. distinct = distinct tuple"
 	protos := []string{"connect", "grpc", "grpcweb"}
 	kinds := []string{"unary", "client", "server", "bidi"}
 	points := []string{"before", "between", "after"}
@@ -46,7 +46,11 @@ func C19(r *h.Run) {
 	}
 	errVal := errors.New("panic-error")
 	// class -1: returns normally; class -2: returns an ordinary error without panicking
-	vals := []pv{{-1, nil}, {-2, nil}, {0, nil}, {1, http.ErrAbortHandler}, {2, errVal}, {3, "panic-string"}, {4, structPanic{1, 2}}}
+	// values that merely resemble the abort sentinel: an error wrapping it, and an
+	// error type whose Is method matches it; net/http recognises the sentinel by
+	// identity only, so these are ordinary panic values
+	wrappedAbort := fmt.Errorf("wrapped: %w", http.ErrAbortHandler)
+	vals := []pv{{-1, nil}, {-2, nil}, {0, nil}, {1, http.ErrAbortHandler}, {2, errVal}, {3, "panic-string"}, {4, structPanic{1, 2}}, {6, wrappedAbort}, {7, abortLookalike{}}}
 	handlerErr := connect.NewError(connect.CodeAlreadyExists, errors.New("handler-error"))
 	for _, proto := range protos {
 		for _, kind := range kinds {
@@ -71,6 +75,10 @@ func C19(r *h.Run) {
 									cls = 1
 								} else if x == errVal {
 									cls = 2
+								} else if x == wrappedAbort {
+									cls = 6
+								} else if _, ok := x.(abortLookalike); ok {
+									cls = 7
 								}
 							case string:
 								cls = 3
@@ -342,3 +350,10 @@ func toyInflate(algo string, flags byte, payload []byte) []byte {
 	}
 	return payload
 }
+
+// abortLookalike is an error that errors.Is reports as http.ErrAbortHandler
+// without being it.
+type abortLookalike struct{}
+
+func (abortLookalike) Error() string        { return "looks like an abort" }
+func (abortLookalike) Is(target error) bool { return target == http.ErrAbortHandler }
